@@ -771,6 +771,13 @@ class Interp:
         if isinstance(a, (list, tuple)) and isinstance(b, (list, tuple)) \
                 and isinstance(op, ast.Add) and not _numeric_seq(a):
             return list(a) + list(b)
+        # sequence repetition: (dim,) * rank, [0] * n -- shapes and fill lists
+        if isinstance(op, ast.Mult):
+            for seq, k in ((a, b), (b, a)):
+                if isinstance(seq, tuple) and isinstance(k, num) and not isinstance(k, bool) \
+                        and Fraction(k).denominator == 1 and len(seq) <= 2 \
+                        and all(isinstance(x, num) for x in seq):
+                    return tuple(seq) * int(k)
         if isinstance(a, num) and isinstance(b, num) and not isinstance(a, bool) \
                 and not isinstance(b, bool):
             if isinstance(op, ast.Add):
